@@ -183,19 +183,25 @@ theorem validateV2Siacoins_ok {ms : Mid} {t : Txn2} (h : validateV2Siacoins ms t
     cases hres : x.res with
     | renewal rn =>
       rw [hres] at hh; simp only [] at hh
-      rw [bind_eq_ok] at hh; obtain ⟨i1, hi1, hh⟩ := hh
-      rw [bind_eq_ok] at hh; obtain ⟨i2, hi2, hh⟩ := hh
-      rw [bind_eq_ok] at hh; obtain ⟨a, ha, hh⟩ := hh
-      rw [bind_eq_ok] at hh; obtain ⟨b, hb, hh⟩ := hh
-      rw [bind_eq_ok] at hh; obtain ⟨tax, htax, hh⟩ := hh
-      rw [bind_eq_ok] at hh; obtain ⟨c, hc, hh⟩ := hh
-      cases hh
-      rw [addC_ok] at hi1 hi2 ha hb hc
-      have := v2Tax_ok htax
-      simp only []
-      constructor
-      · rw [hi2.2, hi1.2]; simp only [Nat.add_assoc]
-      · rw [hc.2, hb.2, ha.2, this]; unfold Fc2.val; simp only [Nat.add_assoc]
+      split at hh
+      · rw [bind_eq_ok] at hh; obtain ⟨i1, hi1, hh⟩ := hh
+        cases hi1
+        split at hh
+        · rw [bind_eq_ok] at hh; obtain ⟨i2, hi2, hh⟩ := hh
+          cases hi2
+          rw [bind_eq_ok] at hh; obtain ⟨a, ha, hh⟩ := hh
+          rw [bind_eq_ok] at hh; obtain ⟨b, hb, hh⟩ := hh
+          rw [bind_eq_ok] at hh; obtain ⟨tax, htax, hh⟩ := hh
+          rw [bind_eq_ok] at hh; obtain ⟨c, hc, hh⟩ := hh
+          cases hh
+          rw [addC_ok] at ha hb hc
+          have := v2Tax_ok htax
+          simp only []
+          constructor
+          · simp only [Nat.add_assoc]
+          · rw [hc.2, hb.2, ha.2, this]; unfold Fc2.val; simp only [Nat.add_assoc]
+        · rw [bind_eq_ok] at hh; obtain ⟨_, hr, _⟩ := hh; cases hr
+      · rw [bind_eq_ok] at hh; obtain ⟨_, hr, _⟩ := hh; cases hr
     | proof a b c d => rw [hres] at hh; cases hh; simp
     | expiration => rw [hres] at hh; cases hh; simp) _ _ _ hpr
   obtain ⟨e3a, e3b⟩ := e3
